@@ -10,5 +10,6 @@ var props = map[string]propCfg{
 	"C03": {Assumptions: []string{"harness/ref decoder/encoder implement the pointer rules of capnproto.org/encoding.html (self-tested: Encode∘Decode identity, strict validation of own output)"}},
 	"C04": {Assumptions: []string{"the reference model in harness/build mirrors only documented builder semantics (SetPtr of an unattached object moves it; list members, SetStruct and CopyFrom copy)"}},
 	"C05": {Assumptions: []string{"harness/ref strict decoder implements the producer-side rules of capnproto.org/encoding.html"}},
+	"C17": {Assumptions: []string{"ref.Equal transcribes the doc comment of capnp.Equal; pairs the comment does not decide are excluded from the iff assertion"}},
 	"C13": {Assumptions: []string{"ref.Pack/ref.Unpack (written from the packing spec, self-tested against the repository's TestPack vectors) are correct"}},
 }
